@@ -744,6 +744,7 @@ pub fn check(s: &Session, h: &History, stats: &mut Stats) -> Option<Violation> {
     let mut disk_kinds: Vec<String> = Vec::new();
     let mut open_now: BTreeSet<String> = BTreeSet::new();
     let mut alt_event: BTreeSet<String> = BTreeSet::new();
+    let mut maybe_forgotten: BTreeSet<String> = BTreeSet::new();
     let mut open_spellings: BTreeMap<String, BTreeSet<String>> = BTreeMap::new();
     for (i, p) in s.ops.iter().enumerate() {
         let kinds = op_kinds(&p.op, &states);
@@ -770,6 +771,14 @@ pub fn check(s: &Session, h: &History, stats: &mut Stats) -> Option<Violation> {
             Op::Disk(_) | Op::Watched { .. } => {
                 // watched-file events legitimately reload unopened files from disk
                 disk_touched = true;
+                // a document the server may have forgotten by now (an edit it could not apply) is
+                // no longer "maintained by the client" in the server's eyes until it is opened
+                // again: from here on disk activity may reload or remove it
+                for (u, st) in &states {
+                    if st.contains(&None) {
+                        maybe_forgotten.insert(u.clone());
+                    }
+                }
                 disk_kinds.extend(kinds.iter().cloned());
                 if let Op::Watched { changes } = &p.op {
                     for (u, _) in changes {
@@ -785,6 +794,7 @@ pub fn check(s: &Session, h: &History, stats: &mut Stats) -> Option<Violation> {
                 open_spellings.entry(canon(uri)).or_default().insert(uri.clone());
                 let uri = &canon(uri);
                 open_now.insert(uri.clone());
+                maybe_forgotten.remove(uri);
                 let mut st = BTreeSet::new();
                 st.insert(Some(text.replace('\r', "")));
                 states.insert(uri.clone(), st);
@@ -830,7 +840,10 @@ pub fn check(s: &Session, h: &History, stats: &mut Stats) -> Option<Violation> {
                 // under another spelling of an open document's URI is not recognised as "maintained
                 // by the client" by the pinned code either (no property speaks about that). A
                 // document the client has open under the spelling the events used stays checked.
-                let maintained = open_now.contains(uri) && !legal.contains(&None) && !alt_event.contains(uri);
+                if got.is_none() {
+                    maybe_forgotten.insert(uri.clone());
+                }
+                let maintained = open_now.contains(uri) && !legal.contains(&None) && !alt_event.contains(uri) && !maybe_forgotten.contains(uri);
                 if disk_touched && !uri.contains("nonexistent") && !maintained {
                     // a reload from disk may have replaced the text of a document the client
                     // closed; pin the state to what is there and go on
